@@ -216,7 +216,10 @@ def _merge(case, rec):
     V, R, t, s = zoo.apply_placement(case["place"], c["verts"])
     V = _far(V, case)
     facets, nrm, off, edges, nb = _oracle(V)
-    amb = coplanarity_ambiguous(V, facets, nrm, off)
+    # merge_faces documents its notion of coplanar: numpy.allclose on the plane equations with rtol=1e-5, i.e. unit
+    # normals up to 1e-5 apart. A vertex up to ~1e-5 diameters off a neighbouring facet plane (data tabulated with six
+    # digits) may therefore legitimately be merged or not: the band in which the case is not judged follows that
+    amb = coplanarity_ambiguous(V, facets, nrm, off, hi=1e-4)
     u = list(case["fperm"])
     T = []
     pos = 0
